@@ -39,6 +39,7 @@ func runC19(c *Ctx, r *Report, tier string) {
 	r.Rule("ERRS", "setup errors are typed constructor results of the documented types or propagated; no error result is dropped; internalError stored only by NewParser", 8)
 	r.Rule("KEYS", "every documented tag key is read; every key read is documented or internal", 20)
 	r.Rule("MODEL", "each model field takes its value from the documented tag key; value/field/tag of an option come from the same struct field", 25)
+	r.Rule("NOFLAG", "option construction, nested scans and the handler call in the field loop are REQ(no-flag tag == \"\")", 4)
 	r.Rule("CHECKS", "short-name length in characters; boolean default guard and placement; duplicate check on every successful scan, keyed by namespaced names over nested groups; duplicate error never overwritten", 6)
 	r.Rule("SETTABLE", "reflect values stored as Option.value / Arg.value are fields of an addressable struct guarded by the exported-field test", 2)
 	r.Rule("TAGSCAN", "escape skip is unconditional; values accumulate by append; Get returns the last", 3)
@@ -250,6 +251,34 @@ func runC19(c *Ctx, r *Report, tier string) {
 		} else {
 			r.Fail("KEYS", "package doc", "undocumented key "+k, "flags.go", "a tag key is read that the package documentation does not list")
 		}
+	}
+	// NOFLAG: a field carrying a non-empty no-flag tag contributes nothing: no option, no nested scan, no handler call
+	{
+		noflag := litIs("nonempty(call:(*multiTag).Get(new:multiTag, \"no-flag\"))", false)
+		nT := 0
+		loops := c.loopsDeep(ss)
+		for _, in := range c.instrs(ss, func(x ssa.Instruction) bool {
+			switch v := x.(type) {
+			case *ssa.Alloc:
+				return relType(c, v.Type()) == "*Option"
+			case ssa.CallInstruction:
+				if c.calleeName(v.Common()) == "(*Group).scanStruct" {
+					return true
+				}
+				if v.Common().StaticCallee() == nil && !v.Common().IsInvoke() { // the handler
+					for _, l := range loops {
+						if l.Blocks[x.Block()] {
+							return true
+						}
+					}
+				}
+			}
+			return false
+		}) {
+			nT++
+			c.reqRule(r, "NOFLAG", ss, in, "a no-flag field is skipped before anything is declared from it", noflag, "no-flag tag is empty", nil)
+		}
+		r.Check(nT >= 3, "NOFLAG", c.fname(ss), "declaration sites found", c.pos(ss.Pos()), "≥ 3 (option construction, nested scans, handler)", fmt.Sprintf("%d", nT))
 	}
 	multi := map[string]bool{"default": true, "optional-value": true, "choice": true, "alias": true}
 	for k := range multi {
